@@ -71,7 +71,8 @@ theorem missing_source_is_null (rules : List (Rule N V)) (r : Rule N V) (hr : r 
     rw [lookup_none_iff] at hl
     exact absurd (List.mem_map_of_mem (f := Prod.fst) hm) hl
 
-/-- A trigger returning `Err` (or panicking) aborts the execution; nothing is appended. -/
+/-- A logger execution only completes if no trigger that was reached returned `Err` or panicked
+(contrapositive: a failing trigger aborts the execution, which returns no log). -/
 theorem failing_trigger_aborts (iterName : N) (rules : List (Rule N V)) (it : Option V) (log log' : Log N V)
     (h : loggerExec iterName rules it log = .ok log') : ∀ r ∈ rules, r.trig = .fire ∨ r.trig = .skip :=
   (loggerExec_ok iterName rules it log log' h).1
@@ -92,6 +93,13 @@ theorem triggers_once (env : Env) (rs : List RuleSt) (s : Step String Nat) :
     (evalRules env rs s).1 = execRules (resolve env rs) s ∧
     ((∀ r ∈ resolve env rs, r.trig = .fire ∨ r.trig = .skip) → (evalRules env rs s).2 = advance env rs) :=
   ⟨evalRules_fst env rs s, evalRules_snd env rs s⟩
+
+/-- The ghost trace the next theorem speaks about is faithful: every configured `Logger` execution
+that completes adds exactly one record — the rules with their trigger outcomes and source values in
+the state at that moment, and the loop counter then visible (`none` outside any loop). -/
+theorem logger_execution_recorded (s s' : St) (rs : List RuleSt) (hr : s.rules = some rs)
+    (h : doLog s = .ok s') : s'.trace = s.trace ++ [(resolve s.env rs, getIters s.env)] :=
+  doLog_records s s' rs hr h
 
 /-- For every program of the language (any nesting of blocks, loops, branches, scopes, any logger
 placement, loop-free programs included): a run that completes leaves the log = concatenation of
